@@ -5,6 +5,14 @@ import json
 ALL = [f"C{i:02d}" for i in range(1, 20)]
 
 CHECKS = {
+    "C05": dict(
+        category="exploration", engine="E1", design_ref="DESIGN.md 2.1, 2.6, 3/C05",
+        technique="bounded-exhaustive enumeration of value alphabets, lexical grammars and candidate-type lists against an independent XSD datatype reference",
+        text=("Every value of the per-type alphabets (incl. all ints in [-300,300], +-2^k+-1, floats m*10^e, Decimal exponents -30..30, short byte strings, "
+              "QNames x prefix maps, enum members, formatted dates) is serialized, its text judged against the XSD lexical space DataType.from_value names, and "
+              "read back; every string of the bounded lexical grammars (sign/int/fraction/exponent/whitespace, specials, base64 spacing, hex case, QName forms) "
+              "must be accepted with the XSD value; every ordered pair and triple of the 14 documented types decides by documented priority."),
+        note="trusted: vmc/xsdref.py; rejection of invalid forms not demanded; whitespace not applied to str or strptime-format types"),
     "C06": dict(
         category="exploration", engine="E1", design_ref="DESIGN.md 2.1, 2.6, 3/C06",
         technique="bounded-exhaustive enumeration of component products and all ordered value pairs against an independent XSD datatype reference",
